@@ -5403,7 +5403,7 @@ def unfold_part_alignment(part, alignment):
             if "score_id" in n:
                 n["score_id"] = f"{n['score_id']}-1"
 
-    return unfolded_parts[int(best_idx)]
+    return unfolded_parts[int(np.atleast_1d(best_idx)[0])]
 
 
 # UPDATED
